@@ -67,12 +67,25 @@ Definition env_agrees (look : list N -> option (list N)) (keys : list (list N)) 
   forallb (fun p => match look (fst p) with Some v => bytes_eqb v (snd p) | None => false end) impl
   && forallb (fun k => existsb (fun p => bytes_eqb (fst p) k) impl) keys.
 
-Definition enc_input (r : input_result N) : sexp := match r with InputValue _ x => enc_N x | InputBreak _ => A "break" end.
+Definition enc_input (r : input_result N) : sexp :=
+  match r with
+  | InputValue _ x => enc_N x
+  | InputError _ x => SList [A "e"; enc_N x]
+  | InputBreak _ => A "break"
+  end.
 Definition input_eqb (r : input_result N) (e : sexp) : bool :=
   match r with
   | InputValue _ x => match dec_N e with Some y => x =? y | None => false end
+  | InputError _ x => match e with SList [t; y] => atom_is "e" t && match dec_N y with Some y => x =? y | None => false end | _ => false end
   | InputBreak _ => atom_is "break" e
   end.
+Definition dec_item (e : sexp) : option (input_item N) :=
+  match e with
+  | SList [t; y] => if atom_is "e" t then option_map (ItErr N) (dec_N y) else None
+  | _ => option_map (ItVal N) (dec_N e)
+  end.
+Definition dec_items (e : sexp) : option (list (input_item N)) :=
+  match tagged "vals" e with Some l => dec_list dec_item l | None => None end.
 Fixpoint all2 {A B} (f : A -> B -> bool) (a : list A) (b : list B) : bool :=
   match a, b with
   | [], [] => true
@@ -136,7 +149,7 @@ Definition run_model (e : sexp) : sexp :=
         | _, _, _ => A "undecodable"
         end
       else if atom_is "input" k then
-        match dec_Ns "vals" rs, dec_N ns, tagged "impl" impl with
+        match dec_items rs, dec_N ns, tagged "impl" impl with
         | Some vals, Some n, Some l =>
             let m := input_calls N (N.to_nat n) vals in
             if all2 input_eqb m l then A "ok" else bad (SList (map enc_input m))
@@ -244,9 +257,11 @@ Definition run_spec (e : sexp) : sexp :=
         | _, _, _ => A "undecodable"
         end
       else if atom_is "input" k then
-        match dec_Ns "vals" rs, dec_N ns, tagged "impl" impl with
+        match dec_items rs, dec_N ns, tagged "impl" impl with
         | Some vals, Some n, Some l =>
-            let m := map (InputValue N) (firstn (N.to_nat n) vals) ++ repeat (InputBreak N) (N.to_nat n - List.length vals) in
+            (* the property's reading: one item per call, in order — an error item is an error of that call only *)
+            let m := map (fun i => match i with ItVal _ x => InputValue N x | ItErr _ x => InputError N x end)
+                         (firstn (N.to_nat n) vals) ++ repeat (InputBreak N) (N.to_nat n - List.length vals) in
             if all2 input_eqb m l then A "ok" else bad (SList (map enc_input m))
         | _, _, _ => A "undecodable"
         end
